@@ -3,6 +3,7 @@
 //! trace for TLC) and `replay` (step TLC-generated cases through the real code and compare
 //! the projected state with what the specification computed).
 mod common;
+mod c10;
 mod c20;
 
 fn main() {
@@ -14,6 +15,8 @@ fn main() {
     common::quiet_panics();
     let rest = &args[2..];
     match (args[0].as_str(), args[1].as_str()) {
+        ("C10", "replay") => c10::replay(rest),
+        ("C10", "drive") => c10::drive(rest),
         ("C20", "replay") => c20::replay(rest),
         ("C20", "drive") => c20::drive(rest),
         _ => {
